@@ -3,8 +3,12 @@
 package zzverif
 
 import (
+	"context"
 	"errors"
 	"time"
+
+	"github.com/failsafe-go/failsafe-go/bulkhead"
+	"github.com/failsafe-go/failsafe-go/circuitbreaker"
 
 	"github.com/failsafe-go/failsafe-go"
 	"github.com/failsafe-go/failsafe-go/fallback"
@@ -123,7 +127,11 @@ func ZZ_S07c_TimeoutFallback() {
 	to := timeout.Builder[int](T).OnTimeoutExceeded(func(e failsafe.ExecutionDoneEvent[int]) { zzvrt.CtrAdd("listener", 1) }).Build()
 	fb := fallback.BuilderWithFunc(func(e failsafe.Execution[int]) (int, error) {
 		zzvrt.CtrAdd("fallback", 1)
+		zzvrt.Assert(e.LastError() != nil, "fallback: sees the failed error as the last error")
+		failedWith := e.LastError()
 		zzvrt.Sleep(df)
+		zzvrt.Assert(e.LastError() == failedWith, "fallback: keeps seeing the failed outcome while it runs (also if a timeout fires meanwhile)")
+		zzvrt.Assert(e.LastResult() == 0, "fallback: sees the failed result as the last result")
 		return 99, nil
 	}).Build()
 	var ps []failsafe.Policy[int]
@@ -164,4 +172,72 @@ func ZZ_S07c_TimeoutFallback() {
 	zzvrt.Assert(zzvrt.Live() == 0, "leak: no library goroutine left")
 	zzvrt.Assert(zzvrt.ArmedTimers() == 0, "leak: no library timer left armed")
 	zzvrt.Reach("timeout-fallback-done")
+}
+
+// S07d: Retry(Timeout(fn)) whose caller context is cancelled at a symbolic instant: the execution
+// ends in ErrExceeded only if the Timeout of the attempt it ends with really fired.
+func ZZ_S07d_RetryTimeoutCtx() {
+	T := symDur("T", 1, 40)
+	d1 := symDur("d1", 0, 40)
+	// (not the exact tie d1 == T: there the first attempt's timer callback can be descheduled between winning
+	// the race and cancelling its attempt, and a caller cancellation — a second source, outside what C07/C08
+	// quantify over — then picks up that late result)
+	zzvrt.Assume(d1 != T)
+	c := symDur("cancelAt", 0, 40)
+	to := timeout.Builder[int](T).OnTimeoutExceeded(func(e failsafe.ExecutionDoneEvent[int]) {
+		zzvrt.CtrAdd(idx("fired", zzvrt.CtrGet("attempt")), 1)
+	}).Build()
+	rp := retrypolicy.Builder[int]().WithMaxRetries(1).Build()
+	ctx, cancel := context.WithCancel(context.Background())
+	go func() {
+		zzvrt.Sleep(c)
+		cancel()
+	}()
+	_, err := failsafe.NewExecutor[int](rp, to).WithContext(ctx).GetWithExecution(func(e failsafe.Execution[int]) (int, error) {
+		n := zzvrt.CtrAdd("attempt", 1)
+		if n == 1 {
+			zzvrt.Sleep(d1)
+			return 0, errA
+		}
+		<-e.Canceled() // the second attempt runs until it is cancelled (by its Timeout or by the caller)
+		return 0, errA
+	})
+	zzvrt.Quiesce()
+	last := zzvrt.CtrGet("attempt")
+	if errors.Is(err, timeout.ErrExceeded) && !errors.Is(err, context.Canceled) {
+		zzvrt.Assert(zzvrt.CtrGet(idx("fired", last)) == 1, "timeout: ErrExceeded only if the Timeout of the attempt the execution ended with fired")
+	}
+	if errors.Is(err, context.Canceled) {
+		zzvrt.Reach("ended-by-caller-cancel")
+	}
+	cancel()
+	zzvrt.Reach("retry-timeout-ctx-done")
+}
+
+// S07e: Timeout(X(fn)) for X = bulkhead / circuit breaker: when the timeout fires while fn runs,
+// X still post-processes what fn returned (permit returned, failure recorded) — nesting (C01).
+func ZZ_S07e_TimeoutOutside() {
+	T := symDur("T", 1, 40)
+	d := symDur("d", 0, 40)
+	which := zzvrt.Choose("inner", 2)
+	to := timeout.With[int](T)
+	bh := bulkhead.With[int](1)
+	cb := circuitbreaker.Builder[int]().WithFailureThreshold(1).WithDelay(time.Hour).Build()
+	var inner failsafe.Policy[int] = bh
+	if which == 1 {
+		inner = cb
+	}
+	_, err := failsafe.NewExecutor[int](to, inner).GetWithExecution(func(e failsafe.Execution[int]) (int, error) {
+		zzvrt.Sleep(d)
+		return 0, errA
+	})
+	zzvrt.Quiesce()
+	zzvrt.Assert(err != nil, "nesting: the failure (errA or ErrExceeded) is reported")
+	if which == 0 {
+		zzvrt.Assert(bh.TryAcquirePermit(), "nesting: the bulkhead inside a Timeout gets its permit back however the execution ends")
+	} else {
+		zzvrt.Assert(cb.IsOpen(), "nesting: the breaker inside a Timeout records what the function returned")
+		zzvrt.Assert(cb.Metrics().Failures() == 1, "nesting: the breaker inside a Timeout records what the function returned")
+	}
+	zzvrt.Reach("timeout-outside-done")
 }
